@@ -302,6 +302,22 @@ func genOnce(r *Rand, pkg string, prof Profile) *Spec {
 		}
 	}
 
+	// engine B: foreign types whose packages share a name (template/template, rand/rand): import aliases must be stable
+	var extIn []int
+	if prof.AdversarialNames && r.Chance(2, 3) {
+		pair := 2 * r.Intn(len(ExtTypes)/2)
+		for k := 0; k < 2; k++ {
+			e := ExtTypes[pair+k]
+			id := len(g.sp.Types)
+			g.sp.Types = append(g.sp.Types, Type{ID: id, Kind: KExt, Name: e.Alias + "." + e.Type, ImplBy: -1})
+			if r.Chance(1, 2) {
+				g.sp.Providers = append(g.sp.Providers, Provider{Name: fmt.Sprintf("P%d", len(g.sp.Providers)), Form: "func", Out: []int{id}})
+			}
+			extIn = append(extIn, id)
+			g.avail = append(g.avail, id)
+		}
+	}
+
 	// most programs end in a sink that joins several branches, so that the needed closure is wide
 	sinkOut := -1
 	if len(g.sp.Providers) >= 2 && r.Chance(3, 4) {
@@ -334,6 +350,17 @@ func genOnce(r *Rand, pkg string, prof Profile) *Spec {
 		}
 		if k >= 2 {
 			sk := Provider{Name: fmt.Sprintf("P%d", len(g.sp.Providers)), Form: "func", In: append([]int{}, outs[:k]...)}
+			for _, e := range extIn {
+				dup := false
+				for _, in := range sk.In {
+					if in == e {
+						dup = true
+					}
+				}
+				if !dup {
+					sk.In = append(sk.In, e)
+				}
+			}
 			kind := KPtr
 			if r.Chance(1, 5) {
 				kind = g.freshValueKind()
@@ -425,7 +452,7 @@ func genOnce(r *Rand, pkg string, prof Profile) *Spec {
 
 	nInj := 1
 	if prof.Families {
-		nInj = 1 + r.Intn(4)
+		nInj = 2 + r.Intn(5) // the same DAG under several Async subsets, Set groupings and orders
 	} else if r.Chance(1, 3) {
 		nInj = 1 + r.Intn(3)
 	}
@@ -551,12 +578,19 @@ func (g *genState) variant(base []Use, k int) []Use {
 	r := g.r
 	uses := make([]Use, len(base))
 	copy(uses, base)
-	mode := r.Intn(6)
+	mode := r.Intn(9)
 	if g.prof.WantAsync && mode == 0 {
 		mode = 2
 	}
 	if g.prof.MinAsyncFree > 0 {
 		mode = 3 + r.Intn(3)
+	}
+	// which providers produce nothing anyone else consumes (sinks)
+	consumed := map[int]bool{}
+	for i := range g.sp.Providers {
+		for _, in := range g.sp.Providers[i].In {
+			consumed[in] = true
+		}
 	}
 	for i := range uses {
 		p := &g.sp.Providers[uses[i].Prov]
@@ -580,6 +614,24 @@ func (g *genState) variant(base []Use, k int) []Use {
 			uses[i].Async = len(p.In) == 0 || r.Chance(1, 4)
 		case 5:
 			uses[i].Async = r.Chance(3, 4)
+		case 6: // synchronous roots feeding asynchronous consumers
+			uses[i].Async = len(p.In) > 0 && r.Chance(6, 7)
+		case 7: // asynchronous middle: neither roots nor sinks
+			sink := true
+			for _, o := range p.Out {
+				if consumed[o] {
+					sink = false
+				}
+			}
+			uses[i].Async = len(p.In) > 0 && !sink
+		case 8: // asynchronous roots and middle, synchronous sinks
+			sink := true
+			for _, o := range p.Out {
+				if consumed[o] {
+					sink = false
+				}
+			}
+			uses[i].Async = !sink || r.Chance(1, 8)
 		}
 	}
 	if r.Chance(2, 3) {
